@@ -70,9 +70,11 @@ CHECKS = {
         engine="E1 sysched + E2 crashfs", category="model_checking",
         technique="stateless exploration of all syscall-level interleavings up to a preemption bound on the real GitFile code; exhaustive fault-site enumeration",
         text=("Every interleaving (<=3 preemptions quick, <=5 thorough for 2 actors; 3 actors <=2/3) of real GitFile open/write/close|abort programs "
-              "and of 12 pairs / 3 triples of real dulwich writers on one repository is executed with lock-ownership, non-interference and "
-              "whole-file-replacement invariants evaluated between every two system calls; every mutating system call inside 18 lock-protocol "
-              "writers is made to fail with ENOSPC/EIO/EPERM/KeyboardInterrupt (thorough: two faults). Absence of a violation is exhaustive within these bounds."),
+              "and of 15 pairs / 3 triples of real dulwich writers on one repository is executed with lock-ownership, non-interference and "
+              "whole-file-replacement invariants evaluated between every two system calls (afterwards every protected file must load in a fresh reader); every system call inside 22 lock-protocol "
+              "writers (incl. index writes whose checksum trailer straddles the write buffer, core.sharedRepository chmods, locked_index) is made to fail with ENOSPC/EIO/EPERM/KeyboardInterrupt (thorough: two faults): "
+              "old-or-new content, a failed write leaves the old content, no lock left when the error reaches the caller. A TLA+ model of the lock protocol (649 states) is checked by TLC and every one of its 1635 transitions is replayed on the real _GitFile. "
+              "Absence of a violation is exhaustive within these bounds."),
         note="Trusted: the interposition layer (completeness cross-checked by an audit hook), tmpfs semantics, atomic sequentially consistent syscalls; fd-level I/O on private lock files is not a scheduling point.",
     ),
     "C08": dict(
@@ -87,10 +89,11 @@ CHECKS = {
     "C09": dict(
         engine="E2 crashfs", category="fault_enumeration",
         technique="exhaustive crash-point enumeration over the interposed file system (process-crash model; power-loss variants with fsync enabled); recovery predicate on fresh objects",
-        text=("For 14 (quick) / 21 (thorough) repository-changing operations from a loose and a packed start state the process is killed before every mutating system call "
-              "in turn; the post-crash directory is reopened with fresh dulwich objects (thorough: also git fsck) and must open, have every ref at its old or new value with a readable, "
+        text=("For 18 (quick) / 25 (thorough) repository-changing operations from a loose and a packed start state (incl. a ref that is loose over an older packed value) the process is killed before every mutating system call "
+              "in turn, and inside every write(2) with its first byte / first half written; thorough: all two-operation histories (the first operation completes, the kill lands in the second). The post-crash directory is reopened "
+              "with fresh dulwich objects (thorough: also git fsck) and must open, have every ref at its old or new value with a readable, "
               "correctly hashing closure, keep every previously reachable object, parse index/config as old or new and never offer a half-written object."),
-        note="Trusted: interposition layer incl. raw write visibility (LoggedFileIO), atomic system calls (no torn write(2)), ordered-metadata power-loss model restricted to one damaged unsynced file at a time.",
+        note="Trusted: interposition layer incl. raw write visibility (LoggedFileIO), system calls atomic except the write the kill lands in, ordered-metadata power-loss model restricted to one damaged unsynced file at a time.",
     ),
     "C12": dict(
         engine="E4 enum", category="exploration",
@@ -131,6 +134,7 @@ CHECKS = {
         text=("BFS over canonical storage states of the files backend (directory snapshot incl. loose/packed layout; quick depth 4, thorough to closure), the dict backend and the reftable backend, "
               "~56 operations per state over names that collide as file/directory, symref chains/loops and packing; every transition runs on a fresh, a cache-warm and a bystander container "
               "and must match the model in outcome and in as_dict/keys/symrefs/membership/reads; thorough: git for-each-ref / symbolic-ref agree on every distinct files state. "
+              "Names of every length 12..44 (thorough ..140) through create/update/symref/delete/re-create on all backends (reftable record-header boundaries), 135 consecutive updates, and loop-free symref chains of length 1..8 compared across backends and with git rev-parse. "
               "check_ref_format is compared with an independent transcription of git-check-ref-format(1) and the git binary on all ~90k strings <=4 over 17 characters plus token strings."),
         note="Trusted: the map model in props/C16.py (for colliding names with a failing condition both 'refused' and False are accepted), refmodels/refname.py (cross-checked against git), git 2.39.5.",
     ),
